@@ -25,14 +25,15 @@ VARIABLES pos,        \* bytes handed to the engine so far
           leftover,   \* arrayChunkLeftover: bytes of an incomplete element
           out,        \* elements written (each a sequence of byte positions)
           ended,      \* number of times endArray ran
-          sched       \* history: <<"chunk", n, more>> | <<"data", k>>
+          sched,      \* history: <<"chunk", n, more>> | <<"data", k>>
+          empties     \* number of empty data events so far (bounded)
 
-vars == <<pos, chunkLeft, more, inChunk, declared, nchunks, leftover, out, ended, sched>>
+vars == <<pos, chunkLeft, more, inChunk, declared, nchunks, leftover, out, ended, sched, empties>>
 
 Range(a, b) == [i \in 1..(b - a + 1) |-> a + i - 1]
 
 Init == pos = 0 /\ chunkLeft = 0 /\ more = TRUE /\ inChunk = FALSE /\ declared = 0 /\ nchunks = 0
-        /\ leftover = <<>> /\ out = <<>> /\ ended = 0 /\ sched = <<>>
+        /\ leftover = <<>> /\ out = <<>> /\ ended = 0 /\ sched = <<>> /\ empties = 0
 
 (* OnArrayChunk(n, m): only while more chunks may follow and the previous one is complete *)
 Chunk(n, m) ==
@@ -44,11 +45,13 @@ Chunk(n, m) ==
   /\ inChunk' = (n > 0)
   /\ ended' = IF n = 0 /\ ~m THEN ended + 1 ELSE ended
   /\ sched' = Append(sched, <<"chunk", n, IF m THEN 1 ELSE 0>>)
-  /\ UNCHANGED <<pos, leftover, out>>
+  /\ UNCHANGED <<pos, leftover, out, empties>>
 
 (* AddArrayData with k bytes (k <= bytes missing in this chunk) *)
 Data(k) ==
-  /\ inChunk /\ k >= 1
+  /\ inChunk /\ k >= 0
+  /\ (k = 0 => empties < 1)                          \* an empty data event changes nothing
+  /\ empties' = IF k = 0 THEN empties + 1 ELSE empties
   /\ LET missing == chunkLeft * W - Len(leftover) IN k <= missing
   /\ LET bytes == Range(pos + 1, pos + k)
          (* 1. complete a left-over element *)
@@ -73,7 +76,7 @@ Data(k) ==
         /\ UNCHANGED <<more, declared, nchunks>>
 
 Next == \/ \E n \in 0..N, m \in BOOLEAN : Chunk(n, m)
-        \/ \E k \in Sizes : Data(k)
+        \/ \E k \in Sizes \cup {0} : Data(k)
 
 Done == ended > 0 \/ (~inChunk /\ ~more)
 
